@@ -200,6 +200,34 @@ class SimDisk(object):
         return SimFile(self, filename, mode or 'r', encoding)
 
 
+def drive_reused_buffer(chunks, operator):
+    """Like drive(), but every chunk is handed over as a memoryview of ONE bytearray that the producer overwrites as soon as
+    on_next has returned (the readinto() idiom): an operator that keeps a reference to a chunk instead of consuming it
+    reads garbage later.  Returns (items, terminal)."""
+    subject = Subject()
+    items = []
+    term = []
+    subject.pipe(operator).subscribe(on_next=lambda i: items.append(bytes(i)), on_error=lambda e: term.append(('error', e)),
+                                     on_completed=lambda: term.append(('completed',)))
+    buf = bytearray(max([len(c) for c in chunks] + [1]))
+    try:
+        for c in chunks:
+            n = len(c)
+            buf[:n] = c
+            subject.on_next(memoryview(buf)[:n])
+            buf[:n] = b'\xaa' * n
+            if term:
+                break
+        if not term:
+            subject.on_completed()
+    except Exception as e:
+        from .core import innermost_in_verif
+        if innermost_in_verif(e):
+            raise
+        term.append(('escaped', e))
+    return items, (term[0] if term else None)
+
+
 def merge_order(rng, lens):
     """A seeded interleaving of K streams: list of stream indices, each stream i appearing lens[i] + 1 times
     (its chunks, then its completion)."""
